@@ -119,3 +119,15 @@ Proof.
   induction ws as [|w ws IH]; intros cur H; cbn [fold_left]; [exact H|].
   apply IH. rewrite gen_set_level_output_width. destruct ((0 <=? w) && (w <=? 5)) eqn:E; lia.
 Qed.
+
+(* ---- the flag word: the functions every other translation calls through a declared rendering ---- *)
+Lemma gen_is_any_bits_set flags f : Layout.is_any_bits_set flags f = negb (Z.land flags f =? 0).
+Proof. reflexivity. Qed.
+Lemma gen_is_all_bits_set flags f : Layout.is_all_bits_set flags f = (Z.land flags f =? f).
+Proof. reflexivity. Qed.
+Lemma gen_add_flags flags fs : Layout.add_flags flags fs = fold_left Z.lor fs flags.
+Proof.
+  first [ reflexivity
+        | unfold Layout.add_flags; cbv zeta; revert flags; induction fs as [|x t IH]; intros flags; cbn [fold_left];
+          [ reflexivity | apply IH ] ].
+Qed.
